@@ -55,6 +55,7 @@ class Gen:
         self.disc = disciplined
         self.ops = []
         self.handles = []      # (contract index, live?)
+        self.ahs = []          # AccountState handles: [account index, put?]
         self.nsnaps = 0
         self.ncsnaps = 0
         self.tokens = []       # live tokens, oldest first: ("B", i) / ("C", j, h)
@@ -69,9 +70,10 @@ class Gen:
         self.after_commit = op[0] == "commit"
 
     def clear(self):
-        if self.handles or any(t[0] == "C" for t in self.tokens):
+        if self.handles or self.ahs or any(t[0] == "C" for t in self.tokens):
             self.emit(["clear"])
         self.handles = []
+        self.ahs = []
         self.ncsnaps = 0
         self.tokens = [t for t in self.tokens if t[0] == "B"]
 
@@ -81,7 +83,9 @@ class Gen:
         choices = ["put", "put", "open"]
         if lh:
             choices += ["set", "set", "set", "del", "stage", "csnap"]
-        choices += ["snap"]
+        choices += ["snap", "aget"]
+        if self.ahs:
+            choices += ["amut", "amut", "aput", "areset"]
         if any(t[0] == "B" for t in self.tokens):
             choices += ["rb", "rb"]
         if any(t[0] == "C" for t in self.tokens):
@@ -94,6 +98,22 @@ class Gen:
         c = rng.choice(choices)
         if c == "put":
             self.emit(["put", rng.randrange(4), rng.randrange(1, 200)])
+        elif c == "aget":
+            self.emit(["aget", rng.randrange(2) if self.disc else rng.randrange(4)])
+            self.ahs.append([self.ops[-1][1], False])
+        elif c == "amut":
+            # disciplined: Add/SubBalance only through a handle whose newState has not been put
+            cand = [i for i, h in enumerate(self.ahs) if not (self.disc and h[1])]
+            if cand:
+                self.emit([rng.choice(["aadd", "asub"]), rng.choice(cand), rng.randrange(1, 50)])
+        elif c == "aput":
+            i = rng.randrange(len(self.ahs))
+            self.emit(["aput", i])
+            self.ahs[i][1] = True
+        elif c == "areset":
+            i = rng.randrange(len(self.ahs))
+            self.emit(["areset", i])
+            self.ahs[i][1] = False
         elif c == "open":
             ci = rng.choice([2, 3, 2, 3, 0]) if not self.disc else rng.choice([2, 3])
             self.emit(["open", ci])
@@ -143,7 +163,7 @@ class Gen:
             self.emit(["commit"])
         elif c == "reopen":
             self.emit(["reopen"])
-            self.handles, self.tokens, self.nsnaps, self.ncsnaps = [], [], 0, 0
+            self.handles, self.tokens, self.nsnaps, self.ncsnaps, self.ahs = [], [], 0, 0, []
         elif c == "wild":
             # anything, valid or not: stale tokens, dead handles, unknown indices
             k = rng.choice(["rb", "crb", "stage", "set", "csnap", "clear"])
@@ -174,7 +194,7 @@ def gen_trace(rng, length, disciplined):
 ALPHABET = [
     ["put", 0, 1], ["put", 2, 2], ["open", 2], ["set", 0, 0, 1], ["set", 0, 0, 2], ["del", 0, 0],
     ["set", 1, 0, 3], ["set", 0, 1, 4], ["stage", 0], ["stage", 1], ["snap"], ["rb", 0], ["csnap", 0], ["crb", 0],
-    ["update"], ["commit"],
+    ["update"], ["commit"], ["aget", 0], ["aadd", 0, 3], ["aput", 0],
 ]
 
 
@@ -214,6 +234,14 @@ def coq_op(op):
         return "OCSnap %d" % op[1]
     if k == "crb":
         return "OCRollback %d" % op[1]
+    if k == "aget":
+        return "OAGet A%d" % op[1]
+    if k in ("aadd", "asub"):
+        return "%s %d %d" % ("OAAdd" if k == "aadd" else "OASub", op[1], op[2])
+    if k == "aput":
+        return "OAPut %d" % op[1]
+    if k == "areset":
+        return "OAReset %d" % op[1]
     return {"update": "OUpdate", "commit": "OCommit", "reopen": "OReopen", "clear": "OClear"}[k]
 
 
@@ -230,7 +258,7 @@ def coq_num(x):
 def coq_obs(o, classes):
     if o.get("p"):
         return "OP"
-    nums = (o.get("a") or []) + (o.get("h") or []) + (o.get("c") or []) + (o.get("b") or [])
+    nums = (o.get("a") or []) + (o.get("h") or []) + (o.get("c") or []) + (o.get("b") or []) + (o.get("ah") or [0])
     ids = []
     rs = o.get("r") or []
     for i, r in enumerate(rs):
@@ -409,10 +437,27 @@ def run(ctx):
                                    "final_with": [visible(of[-1]), of[-1].get("h")], "final_without": [visible(oe[-1]), oe[-1].get("h")]}))
         # (3) reads return the latest non-reverted write: plain accounts a0, a1 against an explicit
         #     stack of frames (never opened as contracts, so Update does not touch them)
-        vis, frames = {}, []
+        vis, frames, ahb = {}, [], []
         for si, op in enumerate(full):
             if si >= len(of) or of[si].get("p"):
                 break
+            if op[0] in ("aadd", "asub") and si > 0 and visible(of[si]) != visible(of[si - 1]):
+                pred_fail.append(("C12:handle-mutation-visible", "Add/SubBalance through an AccountState handle that was not PutState'd changed "
+                                  "the visible state (the handle aliases a buffered entry)",
+                                  {"ops": full[: si + 1], "before": visible(of[si - 1]), "after": visible(of[si])}))
+                break
+            if op[0] == "aget":
+                ahb.append([op[1], vis.get(op[1], 0), vis.get(op[1], 0)])   # account, old balance, working balance
+            elif op[0] == "aadd":
+                ahb[op[1]][2] += op[2]
+            elif op[0] == "asub":
+                ahb[op[1]][2] = abs(ahb[op[1]][2] - op[2])
+            elif op[0] == "areset":
+                ahb[op[1]][2] = ahb[op[1]][1]
+            elif op[0] == "aput":
+                vis[ahb[op[1]][0]] = ahb[op[1]][2]
+            elif op[0] in ("clear", "reopen"):
+                ahb = []
             if op[0] == "put":
                 vis[op[1]] = op[2]
             elif op[0] == "snap":
